@@ -117,7 +117,7 @@ for k in (0, 1, 2):
     inst("p_sgr__k%d" % k, "parser", "t_p_sgr(%d)" % k, k + 3, {"C08": Q if k < 2 else T, "C03": T, "C01": Q if k == 1 else T},
          desc="SgrOps over %d parameters with any sub-parameters vs the statement's decoder (';' and ':' colour forms, unknown codes skipped)" % k,
          bounds="%d parameters, <= 6 sub-parameters each, all u16 values" % k, mem=10,
-         optional_covers=["38;5;n list form", "38;2;r;g;b list form", "operation after an unknown code"])
+         optional_covers=["38;5;n list form", "38;2;r;g;b list form", "operation after an unknown code", "38:2::r:g:b sub-parameter form", "38:5:n sub-parameter form"])
 
 inst("p_fe_table", "parser", "t_p_fe_table()", 4, {"C03": Q},
      desc="reference-table lemma: (Escape, Fe) and (any state, Fe+0x40) agree in next state and action kind; with p_trans and p_esc this is the ESC Fe == C1 clause",
@@ -167,7 +167,7 @@ def nocell(op, cols, rows, props, tabs_k="SYM", alt=2, sb=1, suffix="", mem=5, o
         suffix += "_r%d_m%d%d" % geo
     k = 0 if tabs_k == "SYM" else int(tabs_k)
     inst("nc_%s__%dx%d%s" % (op.lower(), cols, rows, suffix), "terminal",
-         "t_nocell(%s, NoCellOp::%s)" % (tcfg(cols, rows, **kw), op), max(cols, rows + sb, k) + 3, props, mem=mem,
+         "t_nocell(%s, NoCellOp::%s)" % (tcfg(cols, rows, **kw), op), max(cols, rows + sb, k, 13) + 3, props, mem=mem,
          desc="execute(%s) from any InvT state: exact cursor/mode post-condition, no cell / mark / other state changes, InvT preserved" % op,
          bounds=geo_desc(cols, rows, **kw) + ("; %s tab stops" % tabs_k if tabs_k != "SYM" else "") + "; all u16 parameters",
          optional_covers=list(optional))
@@ -215,13 +215,13 @@ for n in (1, 2, 3, 5, 8):
 SCROLL_OPT = ["missing / zero count", "count larger than the range", "count 65535"]
 
 
-def scroll(op, cols, rows, row, top, bottom, props, sb=1, alt=2, limit="Some(1)", parked=(0, 0), mem=6, suffix="", fill="Fill::SymOnePen", nfix=None):
+def scroll(op, cols, rows, row, top, bottom, props, sb=1, alt=2, limit="Some(1)", parked=(0, 0), mem=10, suffix="", fill="Fill::SymOnePen", nfix=None):
     kw = dict(sb=sb, alt=alt, limit=limit, crow=row, top=top, bottom=bottom, ccol="SYM", parked_rows=parked[0], parked_sb=parked[1], fill=fill)
     fixed_count = op in ("Lf", "Nel", "Ri") or nfix is not None
     if nfix is not None:
         suffix += "_n%d" % nfix
     inst("sc_%s__%dx%d_r%d_m%d%d%s" % (op.lower(), cols, rows, row, top, bottom, suffix), "terminal",
-         "t_scroll(%s, ScrollOp::%s, %s)" % (tcfg(cols, rows, **kw), op, "u32::MAX" if nfix is None else str(nfix)), max(cols, rows + sb + rows) + 3, props, mem=mem,
+         "t_scroll(%s, ScrollOp::%s, %s)" % (tcfg(cols, rows, **kw), op, "u32::MAX" if nfix is None else str(nfix)), max(cols, rows + sb + rows, 13) + 3, props, mem=mem,
          stubs=[ROTATE_STUB], timeout=1500,
          desc="execute(%s%s): rows of the range shift by min(n,height), vacated rows blank in the current pen, other lines unchanged, "
               "scrollback grows only for an upward scroll starting at row 0, cursor, marks, frame, InvT" % (op, "" if fixed_count else "(n)"),
@@ -231,7 +231,7 @@ def scroll(op, cols, rows, row, top, bottom, props, sb=1, alt=2, limit="Some(1)"
 
 # quick: one instance per op on 3-column screens with a region strictly inside the screen where possible
 for op, (cols, rows, row, top, bottom) in {
-        "Su": (3, 4, 0, 1, 2), "Sd": (3, 4, 3, 1, 2), "Il": (3, 4, 1, 1, 2), "Dl": (3, 4, 2, 1, 3),
+        "Su": (3, 4, 0, 1, 2), "Sd": (3, 4, 3, 1, 2), "Il": (3, 4, 2, 1, 2), "Dl": (3, 4, 1, 1, 2),
         "Lf": (3, 3, 2, 0, 2), "Nel": (3, 3, 1, 0, 1), "Ri": (3, 3, 1, 1, 2)}.items():
     scroll(op, cols, rows, row, top, bottom, {"C06": Q, "C15": Q if op in ("Il", "Su") else T, "C02": Q if op in ("Dl", "Lf") else T,
                                                "C14": Q if op in ("Lf", "Dl") else T, "C17": T, "C16": T, "C01": T})
@@ -264,12 +264,12 @@ def erase(op, cols, rows, props, sb=1, alt=2, mem=6, suffix=""):
     opt = ["a cell of another row is erased"] if op in ("El0", "El1", "El2", "Ech") else []
     if rows == 1:
         opt += ["a cell of another row is erased"]
-    if cols == 1:
+    if cols == 1 or op in ("Ed2", "El2"):
         opt += ["a cell of the cursor row survives"]
     if sb == 0:
         opt += ["a scrollback line is watched"]
     inst("er_%s__%dx%d%s" % (op.lower(), cols, rows, suffix), "terminal", "t_erase(%s, EraseOp::%s)" % (tcfg(cols, rows, **kw), op),
-         max(cols, rows + sb) + 3, props, mem=mem, timeout=1500,
+         max(cols, rows + sb, 13) + 3, props, mem=mem, timeout=1500,
          desc="execute(%s): exactly the extent is blanked in the current pen, soft-wrap mark cleared when the tail is erased, everything else unchanged" % op,
          bounds=geo_desc(cols, rows, **kw) + "; n any u16", optional_covers=opt)
 
@@ -284,10 +284,10 @@ for op in ("Ed0", "Ed1", "Ed2", "El0", "El1", "El2", "Ech"):
 def edit(op, cols, rows, props, sb=1, alt=2, mem=6, crow="SYM", ccol="SYM", suffix=""):
     kw = dict(sb=sb, alt=alt, limit="Some(1)", crow=crow, ccol=ccol)
     inst("ed_%s__%dx%d%s" % (op.lower(), cols, rows, suffix), "terminal", "t_edit(%s, EditOp::%s)" % (tcfg(cols, rows, **kw), op),
-         max(cols, rows + sb) + 3, props, mem=mem, timeout=1500, stubs=[ROTATE_STUB] if op != "Decaln" else [],
+         max(cols, rows + sb, 13) + 3, props, mem=mem, timeout=1500, stubs=[ROTATE_STUB] if op != "Decaln" else [],
          desc="execute(%s): exact extent / shift, blanks in the current pen (DECALN: E with the default pen), cursor, marks, frame" % op,
          bounds=geo_desc(cols, rows, **kw) + "; n any u16",
-         optional_covers=["missing / zero count", "count 65535", "a shifted cell is watched", "a vacated cell is watched"] if op == "Decaln" else [])
+         optional_covers=["missing / zero count", "count 65535", "a shifted cell is watched", "a vacated cell is watched"] if op == "Decaln" else (["a shifted cell is watched"] if cols == 1 else []))
 
 
 for op in ("Ich", "Dch"):
@@ -306,7 +306,7 @@ def prnt(cols, rows, row, top, bottom, props, sb=1, alt=2, limit="Some(1)", mem=
         opt = list(opt) + ["drawing set", "astral character"]
     inst("%s__%dx%d_r%d_m%d%d%s" % ("rep1" if rep else "pr", cols, rows, row, top, bottom, suffix), "terminal",
          "t_print_or_rep(%s, %s)" % (tcfg(cols, rows, **kw), ("1" if "n1" in suffix else "0") if rep else "u32::MAX"),
-         max(cols, rows + sb + 1) + 3, props, mem=mem, timeout=1500, stubs=[ROTATE_STUB],
+         max(cols, rows + sb + 1, 13) + 3, props, mem=mem, timeout=1500, stubs=[ROTATE_STUB],
          desc="execute(Print(ch)): translated char + current pen in exactly one cell, cursor advance / wrap-pending / deferred wrap (mark, next row or region scroll), "
               "insert mode shift, auto-wrap off overwrite, nothing else changes",
          bounds=geo_desc(cols, rows, **kw) + "; every scalar value >= U+0020 except C1", optional_covers=list(opt))
@@ -363,7 +363,7 @@ def switch(op, cols, rows, alt, props, parked_rows=None, parked_sb=1, sb=1, crow
 
 for op in ("Enter1047", "Enter1049"):
     switch(op, 3, 3, 0, {"C16": Q, "C17": Q if op == "Enter1049" else T, "C15": Q if op == "Enter1047" else T, "C13": Q if op == "Enter1047" else T, "C02": T, "C08": T, "C01": T})
-    switch(op, 3, 3, 1, {"C16": T, "C17": T, "C02": T})
+    switch(op, 3, 3, 1, {"C16": Q if op == "Enter1047" else T, "C17": Q if op == "Enter1049" else T, "C02": T})
     switch(op, 1, 1, 0, {"C16": T, "C01": T}, sb=0)
 for op in ("Leave1047", "Leave1049"):
     switch(op, 3, 3, 1, {"C16": Q, "C17": Q if op == "Leave1049" else T, "C15": Q if op == "Leave1049" else T, "C02": T, "C14": T, "C01": T})
@@ -377,7 +377,7 @@ for op in ("Leave1047", "Leave1049"):
 
 def ctx(op, cols, rows, props, alt=2, sb=1, mem=8):
     kw = dict(sb=sb, alt=alt, limit="Some(1)")
-    inst("cx_%s__%dx%d" % (op.lower(), cols, rows), "terminal", "t_ctx(%s, CtxOp::%s)" % (tcfg(cols, rows, **kw), op), max(cols, rows + sb) + 3, props, mem=mem,
+    inst("cx_%s__%dx%d" % (op.lower(), cols, rows), "terminal", "t_ctx(%s, CtxOp::%s)" % (tcfg(cols, rows, **kw), op), max(cols, rows + sb, 13) + 3, props, mem=mem,
          desc="execute(%s): saved context == (col clamped, row, pen, origin, auto-wrap) / restored exactly / soft reset; no cell, nothing else changes" % op,
          bounds=geo_desc(cols, rows, **kw))
 
@@ -396,7 +396,7 @@ def ris(cols, rows, alt, props, parked_rows=None, tabs_k="SYM", sb=1, limit="Som
     if pr == rows:
         opt.append("RIS with a stale parked screen")
     inst("ris__%dx%d_from%s%s" % (cols, rows, "alt" if alt else "pri", suffix), "terminal", "t_ris(%s)" % tcfg(cols, rows, **kw),
-         max(cols, rows + 2, pr + 2) + 3, props, mem=mem, timeout=1500, optional_covers=opt,
+         max(cols, rows + 2, pr + 2, 13) + 3, props, mem=mem, timeout=1500, optional_covers=opt,
          desc="execute(Ris) from any InvT state equals Terminal::new((cols, rows), limit) field by field (cells, marks, cursor, pen, modes incl. cursor keys, margins, tabs, charsets, both saved contexts, limits, changed rows)",
          bounds=geo_desc(cols, rows, **kw) + "; parked screen %d rows" % pr)
 
@@ -475,3 +475,27 @@ for (cols, rows) in ((2, 3), (1, 1), (2, 4)):
 
 gc(2, 2, 1, "Some(1)", 0, True, {"C13": T, "C14": T, "C12": Q}, tn=False)
 gc(2, 2, 0, "Some(0)", 1, False, {"C13": T, "C12": T}, tn=False)
+
+
+# ----------------------------------------------------------------------------- pen, sgr, base, vt
+inst("pen_bits", "pen", "t_pen_bits()", 4, {"C08": Q, "C01": T},
+     desc="Pen: each set_x / unset_x changes exactly attribute x, is_x reads it, bold / faint exclusive, colours are the fields, for any pen",
+     bounds="all pens (3 x 2^5 attribute combinations, all colours)")
+for k in (1, 2, 3):
+    inst("sgr_fold__k%d" % k, "terminal", "t_sgr(%s, %d)" % (tcfg(2, 2, sb=0, alt=2, limit="Some(1)"), k), 6,
+         {"C08": Q if k == 2 else T, "C17": T, "C01": T}, mem=6,
+         desc="execute(Sgr(ops)) with %d arbitrary SgrOps from any pen == left fold of the statement (reset, bold/faint exclusive, 21/22, five independent bits, colours); nothing else changes" % k,
+         bounds="%d operations, any colours" % k)
+for (cols, rows, limit) in ((1, 1, 0), (3, 1, 1), (1, 3, 10), (2, 2, 0), (4, 3, 1), (9, 2, 3)):
+    inst("base__%dx%d_l%d" % (cols, rows, limit), "terminal", "t_base(%d, %d, %d)" % (cols, rows, limit), max(cols, rows, 12) + 2,
+         {"C02": Q if (cols, rows) in ((2, 2), (1, 1)) else T, "C01": Q if (cols, rows) == (1, 1) else T, "C13": T, "C19": T}, mem=6,
+         desc="Terminal::new((%d,%d), Some(%d)) satisfies InvT, is blank, default modes, limits" % (cols, rows, limit), bounds="concrete size")
+inst("vt_none__2x2", "vt", "t_vt_none(%s)" % tcfg(2, 2, sb=1, alt=2, limit="Some(1)"), 34, {"C20": Q, "C01": T}, mem=8,
+     stubs=[("crate::parser::Param::clear", "crate::parser::Param::kv_clear_spec"), ("crate::parser::Parser::csi_dispatch", "crate::parser::Parser::kv_no_csi_dispatch"),
+            ("crate::terminal::Terminal::execute", "crate::terminal::Terminal::kv_rec_execute")],
+     desc="Vt::feed(payload char) with the parser inside OSC / SOS-PM-APC / DCS: terminal unchanged (cells, cursor, modes, tabs, changed lines)",
+     bounds="2x2, all payload chars, all seven string states")
+for (cols, rows) in ((2, 2), (1, 1), (3, 4)):
+    inst("vt_query__%dx%d" % (cols, rows), "vt", "t_vt_query(%s)" % tcfg(cols, rows, sb=1, alt=2, limit="Some(1)"), max(cols, rows + 1) + 3,
+         {"C02": Q if rows == 2 else T, "C01": Q if rows == 1 else T}, mem=6,
+         desc="Vt::size/view/lines/line(n)/cursor from any InvT state: view is the rows-line tail of lines(), line widths, cursor range", bounds="%dx%d" % (cols, rows))
